@@ -288,13 +288,29 @@ fn build(ws: &Workspace, chunk: usize, workers: usize, sched: &str, want: &Optio
     Built { pm, order, goc, yields: st.yields, stuck }
 }
 
+/// C08 on a hierarchy item: start <= end, selection inside the full range, both on lines of the document the uri names
+fn item_ranges(i: &TypeHierarchyItem) -> &'static str {
+    let le = |a: &lsp_types::Position, b: &lsp_types::Position| (a.line, a.character) <= (b.line, b.character);
+    if !le(&i.range.start, &i.range.end) || !le(&i.selection_range.start, &i.selection_range.end) {
+        return "!range-start-after-end";
+    }
+    if !le(&i.range.start, &i.selection_range.start) || !le(&i.selection_range.end, &i.range.end) {
+        return "!selection-outside-range";
+    }
+    let nlines = i.uri.to_file_path().ok().and_then(|p| std::fs::read_to_string(p).ok()).map(|t| t.split('\n').count()).unwrap_or(0);
+    if (i.range.end.line as usize) >= nlines.max(1) {
+        return "!range-outside-document";
+    }
+    ""
+}
+
 fn names(r: Result<Vec<TypeHierarchyItem>, crate::manager::data_structs::ProjectManagerError>, member: bool) -> String {
     match r {
         Err(_) => "!".to_string(),
         Ok(items) => wsutil::upper_sorted(
             items
                 .iter()
-                .map(|i| if member { i.detail.clone().unwrap_or_else(|| "?".to_string()) } else { i.name.clone() })
+                .map(|i| format!("{}{}", if member { i.detail.clone().unwrap_or_else(|| "?".to_string()) } else { i.name.clone() }, item_ranges(i)))
                 .collect(),
         ),
     }
@@ -315,6 +331,10 @@ pub fn answers(pm: &mut ProjectManager, ws: &Workspace) -> Vec<String> {
                 continue;
             }
         };
+        if !item_ranges(&item).is_empty() {
+            out.push(format!("prep!:{}{}", cls, item_ranges(&item)));
+            continue;
+        }
         out.push(format!("sup:{}={}", cls, names(pm.type_hierarchy_supertypes(&item), false)));
         out.push(format!("sub:{}={}", cls, names(pm.type_hierarchy_subtypes(&item), false)));
         for (m, (l, c)) in &f.member_pos {
@@ -327,8 +347,36 @@ pub fn answers(pm: &mut ProjectManager, ws: &Workspace) -> Vec<String> {
                     continue;
                 }
             };
+            if !item_ranges(&item).is_empty() {
+                out.push(format!("prep!:{}.{}{}", cls, mu, item_ranges(&item)));
+                continue;
+            }
             out.push(format!("up:{}.{}={}", cls, mu, names(pm.type_hierarchy_supertypes(&item), true)));
             out.push(format!("dn:{}.{}={}", cls, mu, names(pm.type_hierarchy_subtypes(&item), true)));
+        }
+        // hierarchy requests from a USE of a (possibly inherited) method: the item must be the declaration's
+        for (label, (l, c)) in &f.probes {
+            let m = match label.strip_prefix("use:") {
+                Some(m) => m.to_uppercase(),
+                None => continue,
+            };
+            match pm.prepare_type_hierarchy(&f.uri, &Position::new(*l, *c)) {
+                Ok(v) if v.len() == 1 && v[0].name.to_uppercase() == m => {
+                    let item = v[0].clone();
+                    let owner = item
+                        .uri
+                        .to_file_path()
+                        .ok()
+                        .and_then(|p| p.file_stem().map(|s| s.to_string_lossy().to_uppercase()))
+                        .unwrap_or_else(|| "?".to_string());
+                    out.push(format!("useat:{}.{}={}{}", cls, m, owner, item_ranges(&item)));
+                    out.push(format!("useup:{}.{}={}", cls, m, names(pm.type_hierarchy_supertypes(&item), true)));
+                    out.push(format!("usedn:{}.{}={}", cls, m, names(pm.type_hierarchy_subtypes(&item), true)));
+                }
+                Ok(v) if v.is_empty() => out.push(format!("useat:{}.{}=-", cls, m)),
+                Ok(_) => out.push(format!("useat:{}.{}=?", cls, m)),
+                Err(_) => out.push(format!("useat:{}.{}=-", cls, m)),
+            }
         }
     }
     out
